@@ -249,32 +249,56 @@ def encLoop (c : ECfg) : Nat → EState → Except EncErr (List Bool)
     `v/2+1` symbols, a zero run `z` at most `z+1` -/
 def loopFuel (wv zv : List Nat) : Nat := wv.sum + zv.sum + wv.length + zv.length + 2
 
+/-- "GRC parameters for this slice" (lines 574-582) -/
+structure GrcCfg where
+  /-- `w_grc_div` (`uncompressed_bits` in uncompressed mode) -/
+  wDiv : Nat
+  wTrunc : Bool
+  wUnc : Bool
+  zDiv : Nat
+deriving Repr, DecidableEq
+
+def grcCfg (ubits wCfg zCfg : Nat) : Option GrcCfg :=
+  match wGrcParams[wCfg]?, zGrcParams[zCfg]? with
+  | some wp, some zp =>
+    let wUnc := (wp >>> 4) == 2
+    some { wDiv := if wUnc then ubits else wp &&& 15, wTrunc := (wp >>> 4) == 1, wUnc := wUnc, zDiv := zp &&& 15 }
+  | _, _ => none
+
+/-- the `ZDIV` and `WDIV` header fields (lines 584-585) -/
+def GrcCfg.zdivField (g : GrcCfg) (useZ : Bool) : Nat := if useZ then g.zDiv else zdivDisable
+def GrcCfg.wdivField (g : GrcCfg) : Nat := if !g.wUnc then g.wDiv else wdivUncompressed
+
+/-- the `assert`s on the values of a slice (lines 632, 635), checked for the whole slice up front -/
+def valuesOk (g : GrcCfg) (wv : List Nat) : Except EncErr Unit :=
+  if !(wv.all fun v => decide (v < 512)) then .error .valueRange else
+  if !(wv.all fun v => decide (v >>> g.wDiv ≤ 31) && (!g.wTrunc || decide (v >>> g.wDiv ≤ 2))) then
+    .error .quotientRange else .ok ()
+
+/-- "Write slice header" (lines 592-605) -/
+def sliceHeader (g : GrcCfg) (p : PalPlan) (nvalues : Nat) (newPal : Bool) : List Bool :=
+  putBits 3 (g.zdivField p.useZeroRuns) ++ putSliceHeader nvalues g.wdivField g.wTrunc newPal ++
+    (if newPal then putPaletteHeader p.directOffset p.palbits p.lut else [])
+
+def sliceCfg (g : GrcCfg) (p : PalPlan) (nvalues : Nat) (newPal : Bool) : ECfg :=
+  { useZ := p.useZeroRuns, wDiv := g.wDiv, wTrunc := g.wTrunc, wUnc := g.wUnc, zDiv := g.zDiv,
+    nvalues := nvalues, zNvalues := nvalues + (if newPal then 1 else 0) }
+
 /-- `encode_slice(w_value, z_value, nvalues, p, new_palette, uncompressed_bits, w_cfg, z_cfg, …)`:
     the bits appended to the stream.  `wv` = `w_value[0..nvalues)`, `zv` = `z_value[0..z_nvalues)` (empty when
     zero runs are not used: the C code passes a null pointer). -/
 def encodeSlice (wv zv : List Nat) (p : PalPlan) (newPal : Bool) (ubits wCfg zCfg : Nat) :
     Except EncErr (List Bool) :=
-  let nvalues := wv.length
-  if nvalues = 0 ∨ ¬ nvalues < 32768 then .error .sliceLen else
-  match wGrcParams[wCfg]?, zGrcParams[zCfg]? with
-  | some wp, some zp =>
-    let wTrunc := (wp >>> 4) == 1
-    let wUnc := (wp >>> 4) == 2
-    let wGrcDiv := if wUnc then ubits else wp &&& 15
-    let zGrcDiv := zp &&& 15
-    let zdiv := if p.useZeroRuns then zGrcDiv else zdivDisable
-    let wdiv := if !wUnc then wGrcDiv else wdivUncompressed
-    if !(wv.all fun v => decide (v < 512)) then .error .valueRange else
-    if !(wv.all fun v => decide (v >>> wGrcDiv ≤ 31) && (!wTrunc || decide (v >>> wGrcDiv ≤ 2))) then
-      .error .quotientRange else
-    let header := putBits 3 zdiv ++ putSliceHeader nvalues wdiv wTrunc newPal ++
-      (if newPal then putPaletteHeader p.directOffset p.palbits p.lut else [])
-    let c : ECfg := { useZ := p.useZeroRuns, wDiv := wGrcDiv, wTrunc := wTrunc, wUnc := wUnc, zDiv := zGrcDiv,
-                      nvalues := nvalues, zNvalues := nvalues + (if newPal then 1 else 0) }
-    match encLoop c (loopFuel wv zv) { w := { todo := wv }, z := { todo := zv } } with
+  if wv.length = 0 ∨ ¬ wv.length < 32768 then .error .sliceLen else
+  match grcCfg ubits wCfg zCfg with
+  | none => .error .badCfg
+  | some g =>
+    match valuesOk g wv with
     | .error e => .error e
-    | .ok bits => .ok (header ++ bits)
-  | _, _ => .error .badCfg
+    | .ok _ =>
+      match encLoop (sliceCfg g p wv.length newPal) (loopFuel wv zv) { w := { todo := wv }, z := { todo := zv } } with
+      | .error e => .error e
+      | .ok bits => .ok (sliceHeader g p wv.length newPal ++ bits)
 
 /-! ## `encode_section` (mlw_encode.c 721-849) -/
 
